@@ -129,6 +129,11 @@ func (c *Csv[T]) ReadFromReader(reader io.Reader) <-chan *T {
 					continue
 				}
 
+				if column.ColumnIndex >= len(record) {
+					c.Logger.Error("Unable to set value.", "error", errors.New("not enough fields in the row"))
+					return
+				}
+
 				err := setReflectValue(rowValue.Field(column.FieldIndex),
 					record[column.ColumnIndex], column.Format)
 				if err != nil {
